@@ -65,10 +65,26 @@ DEFECTS = {
     'bad integer': ([('file f.txt = -contents-of -rel-home exists.txt -transformed-by filter line-num == abc', None),
                      ('file f.txt = -contents-of -rel-home exists.txt -transformed-by filter line-num == 1.5', None),
                      ('timeout abc', None), ('exit-code == abc', ['assert']), ('exit-code == 1.5', ['assert']),
-                     ('stdout num-lines == "1 +"', ['assert'])], None),
+                     ('stdout num-lines == "1 +"', ['assert']),
+                     ('file f.txt = -contents-of -rel-home exists.txt -transformed-by replace -at line-num == abc a y', None),
+                     ('file f.txt = -contents-of -rel-home exists.txt -transformed-by filter -line-nums abc', None),
+                     ('file f.txt = -contents-of -rel-home exists.txt -transformed-by filter -line-nums 1:2:3', None),
+                     ('dir-contents -rel-home . : num-files == 1.5', ['assert']),
+                     ('dir-contents -rel-home . : -recursive -min-depth x is-empty', ['assert'])], None),
     'bad regex': ([('file f.txt = -contents-of -rel-home exists.txt -transformed-by replace "(" y', None),
                    ('stdout matches "("', ['assert']), ('stdout any line : contents matches "[a"', ['assert']),
-                   ('file f.txt = -contents-of -rel-home exists.txt -transformed-by filter contents matches "*"', None)], None),
+                   ('file f.txt = -contents-of -rel-home exists.txt -transformed-by filter contents matches "*"', None),
+                   # every REGEX position x option combination
+                   ('file f.txt = -contents-of -rel-home exists.txt -transformed-by replace -at line-num == 1 "(" y', None),
+                   ('file f.txt = -contents-of -rel-home exists.txt -transformed-by replace -preserve-new-lines "(" y', None),
+                   ('file f.txt = -contents-of -rel-home exists.txt -transformed-by replace -preserve-new-lines -at contents matches a "[" y', None),
+                   ('file f.txt = -contents-of -rel-home exists.txt -transformed-by replace -at contents matches "(" a y', None),
+                   ('file f.txt = -contents-of -rel-home exists.txt -transformed-by grep "("', None),
+                   ('file f.txt = -contents-of -rel-home exists.txt -transformed-by ( char-case -to-upper | replace -at line-num >= 1 "*" y )', None),
+                   ('def text-transformer C03_BT = replace -at line-num == 1 "(" y\nfile g.txt = -contents-of -rel-home exists.txt -transformed-by C03_BT', None),
+                   ('stdout matches -full "("', ['assert']), ('stdout -transformed-by replace -at line-num == 1 "(" y is-empty', ['assert']),
+                   ('exists -rel-home exists.txt : name ~ "("', ['assert']),
+                   ('dir-contents -rel-home . : -selection name ~ "[" is-empty', ['assert'])], None),
 }
 
 
@@ -113,7 +129,7 @@ def gen_cases(ctx, markers):
         for p in PHASES:
             for pos in (0, 1, 2):
                 vs = [v for v in variants if v[1] is None or p in v[1]]
-                chosen = vs if not ctx.quick else rng.sample(vs, min(len(vs), 3))
+                chosen = vs if not ctx.quick else rng.sample(vs, min(len(vs), 5))
                 for text, _ in chosen:
                     later = None
                     if cls == 'symbol defined later':
